@@ -5,7 +5,9 @@ use autosar_data_specification::{
     AttributeName, AttributeSpec, AutosarVersion, ContentMode, ElementMultiplicity, ElementName,
 };
 use fxhash::FxHashMap;
+#[cfg(not(danielt_autosar_data_verif))]
 use parking_lot::RwLock;
+#[cfg(danielt_autosar_data_verif)] use crate::verif_lock::RwLock;
 use smallvec::SmallVec;
 use std::collections::HashSet;
 use std::sync::Arc;
